@@ -112,7 +112,9 @@ func (s *SubjectSet) Equals(other Subject) bool {
 }
 
 func (s *SubjectSet) UniqueID() uuid.UUID {
-	return uuid.NewV5(s.Object, s.Namespace+"-"+s.Relation)
+	// The namespace is length-prefixed so that distinct (namespace, relation)
+	// pairs never yield the same name, e.g., ("a-b", "c") and ("a", "b-c").
+	return uuid.NewV5(s.Object, fmt.Sprintf("%d:%s-%s", len(s.Namespace), s.Namespace, s.Relation))
 }
 
 func (s *SubjectSet) String() string {
